@@ -39,7 +39,7 @@ COMPONENTS = {"real": ["litex.soc.integration.soc_core.SoCMini / soc.SoC (finali
                        "litex.soc.integration.builder.Builder._generate_includes/_generate_csr_map", "litex.soc.integration.export.*",
                        "litex.soc.integration.common.get_mem_data", "litex.gen.sim.core.Simulator"],
               "stub": ["GenericPlatform without IO", "CPU (CPUNone) replaced by a Wishbone master agent", "device-side observers", "tracer shim"]}
-CHUNK = 1
+CHUNK = 2      # two SoC builds per process: the second one must not inherit anything from the first
 RUN_TIMEOUT = 600
 
 
